@@ -15,6 +15,7 @@ from driver import hx
 from optmodel import model_parse, parse_observed, compare
 
 PROP = "C13"
+CONCURRENT = "parse"   # extra phase: lib/mtindep.py (parsers used by several threads at once)
 LEVEL = "exploration"
 RULE = ("all call sequences up to length 4 over {option, multi_option, toggle} x names {a, b} x groups "
         "{default, g1}, short_name(a), short_name(b), MOVE (15 calls; thorough adds length 5 on a sample "
